@@ -1157,7 +1157,8 @@ def convert_flag_sets(rng, spec, fmt, tin_has_text_first):
 
 def convert_stream(ctx, rng):
     md_cfgs = [(None, None), ("one", None), (None, True), ("one", True), ("two-keys", True), ("text-first", True)]
-    n_rand = 40 if ctx.quick() else 600
+    wn = max(1, ctx.worker[1])            # the thorough tier is sharded over worker processes: divide the volume
+    n_rand = 40 if ctx.quick() else max(40, 640 // wn)
     # systematic: every input format x metadata configuration x every flag set
     for fmt in ("json", "hdf5", "tsv", "json.gz"):
         for omd, smd in md_cfgs:
@@ -1177,8 +1178,8 @@ def convert_stream(ctx, rng):
                 convert_case(ctx, rng, spec, fmt, ["--process-obs-metadata", "naive"], obs_mapping=omap,
                              tags=("systematic", "obs-mapping"))
     # the real entry point in a sub-process under a C (ASCII) locale: non-ASCII IDs and metadata must still arrive
-    for k in range(3 if ctx.quick() else 16):
-        fmt = ["json", "hdf5", "tsv", "json.gz"][k % 4]
+    for k in range(3 if ctx.quick() else max(3, 16 // wn)):
+        fmt = ["json", "hdf5", "tsv", "json.gz"][(k + ctx.worker[0]) % 4]
         omd, smd = md_cfgs[3 + k % 3]
         spec = convert_spec(rng, omd, smd, rng.randint(2, 5), rng.randint(2, 5))
         spec["obs"][0] = "caf\u00e9_\u65e5\U0001F600"
@@ -1253,9 +1254,11 @@ def run(ctx):
     # large tables: the data block runs to hundreds of KiB (any buffering / chunking in a writer path shows
     # only here); the full predicate is evaluated by the driver on them as on every other case
     large = [(150, 90, 0.8, "int"), (120, 80, 0.5, "frac"), (130, 70, 0.9, "mixed")]
+    wi, wn = ctx.worker[0], max(1, ctx.worker[1])     # thorough: volume divided over the worker processes
     if not ctx.quick():
-        large.append((170, 100, 1.0, "frac"))
-        for _ in range(20):
+        if wi == 0:
+            large.append((170, 100, 1.0, "frac"))
+        for _ in range(max(2, 24 // wn)):
             large.append((rng.randint(100, 220), rng.randint(60, 110), rng.choice([0.3, 0.5, 0.8, 1.0]),
                           rng.choice(["int", "frac", "mixed"])))
     for (ln, lm, dens, kind) in large:
@@ -1267,7 +1270,7 @@ def run(ctx):
         ctx.count("large-data-KiB>=64" if t.nnz * 16 >= 65536 else "large-data-KiB<64")
     # many IDs on one axis, few on the other (size thresholds such as 64 IDs), every layout route; and a table whose
     # "rows" block alone exceeds 64 KiB (long metadata)
-    for k in range(4 if ctx.quick() else 24):
+    for k in range(4 if ctx.quick() else max(4, 24 // wn)):
         axis = ["sample", "observation"][k % 2]
         spec = core.wide_spec(rng, axis=axis, classes=("count", "dyadic", "tiny"), md=(k % 4 < 2))
         t = core.build(spec, rng.choice(["csc", "csr_unsorted", "coo", "sort_roundtrip"]))
@@ -1299,10 +1302,10 @@ def run(ctx):
     convert_stream(ctx, rng)
     # aliasing between live tables: systematic over the ways a table is derived
     for how in DERIVATIONS:
-        for edit in (["mutate_dict_obs", "del_md_subset_samp", "transform_inplace", "update_ids_inplace"] if ctx.quick()
-                     else SAFE_EDITS):
+        for edit in (["mutate_dict_obs", "del_md_subset_samp", "transform_inplace", "update_ids_inplace"]
+                     if (ctx.quick() or wi != 0) else SAFE_EDITS):
             alias_case(ctx, rng, core.build(hist_spec, rng.choice(core.ROUTES)), how, edit, ("systematic",))
-    n = 650 if ctx.quick() else 11000
+    n = 650 if ctx.quick() else max(650, 14000 // wn)
     max_n = 6 if ctx.quick() else 9
     for k in range(n):
         spec = gen_spec(rng, max_n, max_n)
